@@ -8,6 +8,7 @@ package vctx
 
 import (
 	"context"
+	"fmt"
 	"time"
 
 	"github.com/form3tech-oss/f1/v2/internal/verifshim/vrt"
@@ -136,7 +137,7 @@ func newNode(parent Context, name string) *node {
 			}
 		}
 	} else if parent.Done() != nil {
-		panic("vctx: foreign cancellable parent context is not supported by the harness")
+		vrt.Infra("vctx: a cancellable parent context that was not created through the context shim reached rewritten code (" + fmt.Sprintf("%T", parent) + "); the harness cannot control it")
 	}
 	s.Commit(vrt.KCtxCancel, &n.obj, true, 7)
 	return n
